@@ -32,8 +32,8 @@ def run(ctx, replay=None):
     import glob
     extra = sorted(os.path.basename(p)[:-2] for p in glob.glob(os.path.join(C.COQ, "theories", "Properties", "C10_*.v")))
     C.run_gate(ctx, extra_props=extra)
-    per = 2 if ctx.quick else 20
-    groups = [[tuple(replay["case"])]] if replay else Z.make_groups(ctx, per)
+    per = 3 if ctx.quick else 20
+    groups = [[tuple(replay["case"])]] if replay else Z.make_groups(ctx, per, light_factor=2 if ctx.quick else 1)
     # tiny accumulator buffers for the co-occurrence family are reached through coo_initial_memory in the zoo
     by_mode = {}
     from concurrent.futures import ThreadPoolExecutor
@@ -83,6 +83,9 @@ def run(ctx, replay=None):
                 fm = fields(r)
                 for k in fb:
                     if k not in fm:
+                        continue
+                    if k == "transform_x2" and (base.get("degenerate_svd") or r.get("degenerate_svd")):
+                        ctx.dist("skipped:degenerate_svd_transform")
                         continue
                     n_cmp += 1
                     a, b = fb[k], fm[k]
